@@ -385,7 +385,7 @@ fn ref_union_zone_dens(dens: &[&ZoneFileDen], hosts: Option<&HostsMap>, n_hosts_
         apexes.get_mut(&root).unwrap().contributors += n_hosts_files;
         let b = body.entry(root).or_default();
         for ((name, _v6), data) in hm {
-            let r = FlatRec { owner: name.clone(), wildcard: false, data: data.clone(), ttl: 5 };
+            let r = FlatRec { owner: name.clone(), wildcard: false, data: data.clone(), ttl: dns_types::hosts::types::TTL };
             if !b.contains(&r) {
                 b.push(r);
             }
@@ -619,7 +619,7 @@ fn classify_lookup(
         return "wildcard-union";
     }
     if want_apex.is_root() {
-        let hosts_like = |s: &String| s.contains(" 5 IN A ") || s.contains(" 5 IN AAAA ");
+        let hosts_like = |s: &String| s.contains(&format!(" {} IN A ", dns_types::hosts::types::TTL)) || s.contains(&format!(" {} IN AAAA ", dns_types::hosts::types::TTL));
         let diff: Vec<&String> = g.iter().filter(|x| !w.contains(x)).chain(w.iter().filter(|x| !g.contains(x))).collect();
         if !diff.is_empty() && diff.iter().all(|x| hosts_like(x)) {
             return "hosts-override";
